@@ -111,6 +111,44 @@ def canonical_case(d: Any) -> Optional[tuple[str, str, str]]:
     return key, "read", ""
 
 
+def bound_index_check(value: Any, tex: str) -> str:
+    """equations with indexed sums / products are not evaluated, but their bound index is checked:
+    the operator's subscript is the rendering of the index argument, and the equation with the
+    index renamed (a meaning-preserving change of bound variable) renders as the same text with
+    that token renamed - whatever index the indexed symbols were declared with."""
+    from symplyphysics.docs.printer_latex import latex_str
+    ops = [x for x in sp.preorder_traversal(value) if type(x).__name__ in ("IndexedSum",
+        "IndexedProduct")]
+    for op in ops:
+        body, idx = op.args
+        if not isinstance(idx, sp.Idx) or not re.fullmatch(r"[A-Za-z]", str(idx)):
+            continue
+        cmd = "\\sum_" if type(op).__name__ == "IndexedSum" else "\\prod_"
+        t_op = latex_str(op)
+        t_idx = latex_str(idx)
+        if not t_op.startswith(cmd + t_idx + " "):
+            return (f"{short(t_op, 120)}: the operator's subscript is not the index {t_idx} of "
+                f"the {type(op).__name__}")
+        if t_op not in tex:
+            continue
+        for fresh_name in ("q", "m"):
+            fresh = sp.Idx(fresh_name)
+            if value.has(fresh) or re.search(r"(?<![A-Za-z\\])" + fresh_name + r"(?![A-Za-z])", tex) or \
+                    not re.search(r"(?<![A-Za-z\\])" + re.escape(t_idx) + r"(?![A-Za-z])", tex):
+                continue
+            try:
+                renamed = op.xreplace({idx: fresh})
+                t_new = latex_str(renamed)
+            except Exception as ex:  # pylint: disable=broad-except
+                return f"renaming the bound index of {short(t_op, 80)} raised {type(ex).__name__}"
+            want = re.sub(r"(?<![A-Za-z\\])" + re.escape(t_idx) + r"(?![A-Za-z])", fresh_name, t_op)
+            if t_new != want:
+                return (f"{short(t_op, 100)} with the bound index renamed to {fresh_name} renders as "
+                    f"{short(t_new, 100)}, expected {short(want, 100)}")
+            break
+    return ""
+
+
 def catalogue_equation(value: Any) -> tuple[str, str]:
     from symplyphysics.docs.printer_latex import latex_str
     tex = latex_str(value)
@@ -121,6 +159,9 @@ def catalogue_equation(value: Any) -> tuple[str, str]:
         return "read", f"internal name in {short(tex, 140)}"
     if not isinstance(value, sp.Basic):
         return "structure", ""
+    bound = bound_index_check(value, tex)
+    if bound:
+        return "read", bound
     atoms = set()
     for a in sp.preorder_traversal(value):
         if isinstance(a, (sp.Symbol, SymQuantity)) or (hasattr(a, "display_name") and not a.args):
